@@ -112,7 +112,8 @@ def build_cases(plan, tier, seed, wd, rep):
         cfg = corelib.mk_cfg(seed * 100003 + i, page_size=ps, auto_vacuum=av, rows=6,
                              control=bool(plan.get("control")), audit=bool(plan.get("audit")),
                              init_ckpt=(i % 2 == 0),
-                             max_bytes=((ps + 24) if plan.get("chunked") and i % 3 == 0 else 0))
+                             # MaxSyncWALBytes: unlimited / one frame / three frames (chunked syncs, bounded shutdown sync)
+                             max_bytes=[0, ps + 24, 3 * (ps + 24)][i % 3] if not label.startswith("witness") else 0)
         # the model's Close/ack needs an initialised DB: make sure a schedule starts litestream
         if not any(st[0] == "LsOpen" for st in d[:1]):
             d = [["LsOpen", "new"]] + d
